@@ -249,6 +249,67 @@ def run_unit(name, mod, only_props, tier):
             ob.status = UNDECIDED
             ob.detail = "lost anchor: %s" % e
 
+    # ---- call-site precondition ledger: functions documenting `# Preconditions` may only be called from the
+    # call sites whose establishing argument is recorded (a new call site has an unproved precondition)
+    for fname, c in getattr(mod, "CALLSITES", {}).items():
+        try:
+            text = read(c.get("file", mod.FILE))
+            m = rs.mask(text)
+            fns = []
+
+            def walk(lo, hi):
+                for it in rs.split_items(text, m, lo, hi):
+                    if it.kind in ("impl", "mod", "trait") and it.body_open >= 0:
+                        walk(it.body_open + 1, it.body_close)
+                    elif it.kind == "fn" and it.body_open >= 0:
+                        mm = re.search(r"\bfn\s+(\w+)", it.header)
+                        if mm:
+                            fns.append((mm.group(1), it))
+            walk(0, len(text))
+
+            def doc_before(pos):
+                out = []
+                for l in reversed(text[:pos].split("\n")[:-1]):
+                    t = l.strip()
+                    if t.startswith("///") or t.startswith("#["):
+                        out.append(t)
+                    elif t == "" and not out:
+                        continue
+                    else:
+                        break
+                return "\n".join(out)
+            carrying = sorted({n for n, it in fns if re.search(r"#\s*Precondition", doc_before(it.start))})
+            info["edits"].append("scan %s: functions documenting `# Preconditions` and their call sites (masked text)" % c.get("file", mod.FILE))
+            for callee in sorted(set(carrying) | set(c["sites"])):
+                ob = new_ob(_slug(fname + "." + callee), callee + " (call sites)", c["clause"] % callee, c.get("props"))
+                ob.vcs = 1
+                found = {}
+                for caller, it in fns:
+                    k = len(re.findall(r"(?:\.|::)\s*%s\s*(?:::<[^>]*>)?\s*\(" % re.escape(callee), m[it.body_open:it.body_close]))
+                    if k:
+                        found[caller] = found.get(caller, 0) + k
+                want = c["sites"].get(callee)
+                if want is None:
+                    ob.status = UNDECIDED
+                    ob.detail = "`%s` documents preconditions but has no entry in the ledger (call sites: %s)" % (callee, found)
+                    continue
+                if callee not in carrying:
+                    ob.status = UNDECIDED
+                    ob.detail = "lost anchor: `%s` no longer documents a `# Preconditions` section" % callee
+                    continue
+                extra = {k: v for k, v in found.items() if v > want.get(k, 0)}
+                if not extra:
+                    ob.status = DISCHARGED   # fewer call sites than argued is fine
+                else:
+                    ob.status = UNDECIDED
+                    ob.witness = sorted(extra)[0]
+                    ob.detail = ("unregistered call site: `%s` is called from %s, but its preconditions are argued only for %s; "
+                                 "nothing establishes them at the new site" % (callee, extra, want))
+        except rs.ScanError as e:
+            ob = new_ob(_slug(fname), "call sites", "call-site ledger")
+            ob.status = UNDECIDED
+            ob.detail = "lost anchor: %s" % e
+
     # ---- call chains
     for fname, c in getattr(mod, "CHAINS", {}).items():
         ob = new_ob(_slug(fname), " :: ".join(c["item"]), c["clause"])
